@@ -87,7 +87,7 @@ CHECKS = {
    text="TLC checks for all 108 scripts that the proxied composition terminates with the transcripts of the direct one; each script is then run for real on every method shape that carries it: the direct transcript must match the model's oracle (else infrastructure error) and the proxied client must see the same replies, status code, message and details, the backend the same messages, one invocation and the client's request metadata (incl. -bin), with hangs detected by a 4 s bound.",
    note="Two open known findings (F31, F32: first-message wait) are reported as KNOWN-FINDING lines. Response metadata is outside C10's statement. " + TB),
  "C09": dict(engine="Entry", level="model_checking", design="3.6, 6/C09",
-   technique="TLA+ Entry spec (every guard of ServeHTTP / serveGRPCWeb / serveGRPC / serveHTTP as one action; every request answered exactly once, liveness under fairness, response shape a function of the request class) model-checked by TLC with a negative config (gRPC prefix tested before gRPC-web); all 7,200 abstract requests concretised and sent through the real Mux under option subsets and compared with Entry!Resp by TLC (RobustTrace.tla: EntryShape); generated adversarial neighbourhood and WebSocket sessions on real sockets judged by RobustTrace (NoCrash, NoHang, StatusLine, FramesWhole, WsFrames); crash formulas of RouterTrace/RpcTrace on Router_Gen rule sets and out-of-range codes",
+   technique="TLA+ Entry spec (every guard of ServeHTTP / serveGRPCWeb / serveGRPC / serveHTTP as one action; every request answered exactly once, liveness under fairness, response shape a function of the request class) model-checked by TLC with a negative config (gRPC prefix tested before gRPC-web); all 8,160 abstract requests concretised and sent through the real Mux under option subsets and compared with Entry!Resp by TLC (RobustTrace.tla: EntryShape); generated adversarial neighbourhood and WebSocket sessions on real sockets judged by RobustTrace (NoCrash, NoHang, StatusLine, FramesWhole, WsFrames); crash formulas of RouterTrace/RpcTrace on Router_Gen rule sets and out-of-range codes",
    text="No panic, hang or malformed answer: for every abstract request class the recorded response (status, content-type class, grpc-status presence, whole frames, google.rpc.Status error body, whether the service ran) must be what the entry model gives; every generated hostile request (path prefixes/extensions x verbs, query keys through repeated/map fields, junk headers, truncated/huge/garbage bodies and frames, byte-level mutants) under each of 4 option subsets must return control under recover() within 10 s with an HTTP status; every WebSocket session (frame atoms incl. unmasked, fragmented, reserved opcodes, oversized lengths, cut frames) must end with the handler returned and only well-formed server frames.",
    note="Exploration of a model-derived neighbourhood, not arbitrary bytes (coverage-guided fuzzing is outside the fixed technique). " + TB),
 
